@@ -412,13 +412,13 @@ def binary_xor(x, y, n_word=None):
     z = xm ^ ym
     return z
 
-def shift_raw(raw, shift, modular=False):
+def shift_raw(raw, shift):
     """
     Raw value(s) scaled by 2**shift. A product that does not fit a 64-bit signed integer is computed
-    with Python integers (object dtype) instead of wrapping silently in int64, unless `modular` says
-    that it is going to be reduced modulo a power of two anyway (wrap overflow).
+    with Python integers (object dtype) instead of wrapping silently in int64: the range check that
+    follows has to see on which side the value left the range, under saturate and under wrap alike.
     """
-    if shift > 0 and not modular and isinstance(raw, (np.ndarray, np.generic)) and raw.dtype.kind in 'iu' and raw.size > 0:
+    if shift > 0 and isinstance(raw, (np.ndarray, np.generic)) and raw.dtype.kind in 'iu' and raw.size > 0:
         if max(abs(int(raw.max())), abs(int(raw.min()))) << shift >= 2**63:
             return np.array(np.asarray(raw).astype(object) * 2**shift, dtype=object)
     return raw * 2**shift
@@ -436,7 +436,8 @@ def int_clip(x, val_min, val_max):
 def wrap(x, signed, n_word):
 
     m = (1 << n_word)
-    if n_word >= _n_word_max:
+    if n_word >= _n_word_max or np.asarray(x).dtype == object:
+        # (Python integers: also what a narrower word receives when a value exceeds 64 bits)
         dtype = object
         x = int_array(x).astype(dtype) & (m - 1)
     else:
